@@ -1,5 +1,5 @@
 //! C05 - PWB packet decoding is exact.
-use super::diff_outcome;
+use super::{diff_both, diff_outcome};
 use crate::engine::*;
 use crate::gen;
 use crate::PropDef;
@@ -10,7 +10,7 @@ use serde_json::Value;
 pub fn def() -> PropDef {
     PropDef {
         id: "C05",
-        rule: "inputs: (a) valid PWB v2 payloads (single-channel, few-channel, random and full 79-channel masks; requested samples 0,1,2,3,100,510,511 and random; odd/even padding; every header field free) with 0-3 one-rule mutations (any header byte, masks, block channel/size/padding/order, end marker, missing/extra bytes) and byte edits; (b) systematically all 79 single-channel masks x requested{0,1,2,3,510,511} and all 256 values of the chip, compression, trigger and version bytes; oracle: reference validator agrees on accept/reject; sent/over-threshold lists = set bits ascending through the reference readout table; waveform_at = block samples for sent channels and None for all others; scalar accessors = little-endian fields; re-encoding reproduces the input; non-trivial = accepted with >= 1 channel, or rejected with <= 1 mutation; distinct by byte hash",
+        rule: "inputs: (a) valid PWB v2 payloads (single-channel, few-channel, random and full 79-channel masks; requested samples 0,1,2,3,100,510,511 and random; odd/even padding; every header field free) with 0-3 one-rule mutations (any header byte, masks, block channel/size/padding/order, end marker, missing/extra bytes) and byte edits; the largest packets of the format (60-79 channels x 400-511 samples, 48-81 KB); one case in three also decoded as the first packet of a fresh thread; (b) systematically all 79 single-channel masks x requested{0,1,2,3,510,511} and all 256 values of the chip, compression, trigger and version bytes; oracle: reference validator agrees on accept/reject; sent/over-threshold lists = set bits ascending through the reference readout table; waveform_at = block samples for sent channels and None for all others; scalar accessors = little-endian fields; re-encoding reproduces the input; non-trivial = accepted with >= 1 channel, or rejected with <= 1 mutation; distinct by byte hash",
         assumptions: &["the reference validator (oracles::pwb::ref_pwb) transcribes the rule list of the property statement"],
         run,
         replay,
@@ -20,7 +20,7 @@ pub fn def() -> PropDef {
 fn case_oracle(c: &gen::PwbCase, ev: &mut Ev) -> Outcome {
     ev.eval();
     let b = c.bytes();
-    let label = diff_outcome(detdiff::pwb(&b), ev, "pwb")?;
+    let label = diff_both(detdiff::pwb, &b, 3, ev, "pwb")?;
     let k = c.base.sent_mask.count_ones();
     if label == "ok" {
         ev.label(match k { 0 => "weight:0", 1 => "weight:1", 2..=10 => "weight:2-10", 11..=78 => "weight:11-78", _ => "weight:79" });
@@ -64,11 +64,13 @@ fn systematic(i: u64, ev: &mut Ev) -> Outcome {
 fn run(r: &Run) {
     r.prop("pwb_cases", r.tier.pick(200_000, 3_000_000), gen::pwb_case, case_oracle);
     r.enumerate("pwb_systematic", SYSTEMATIC, systematic);
+    // the largest packets the format allows (60-79 channels of 400-511 samples, 48-81 KB)
+    r.prop("pwb_big_packets", r.tier.pick(400, 30_000), gen::pwb_big, case_oracle);
 }
 
 fn replay(_r: &Run, check: &str, case: &Value) -> Option<Outcome> {
     Some(match check {
-        "pwb_cases" => replay_case(case, case_oracle),
+        "pwb_big_packets" | "pwb_cases" => replay_case(case, case_oracle),
         "pwb_systematic" => systematic(case["index"].as_u64().unwrap_or(0), &mut Ev::default()),
         "pwb_bytes" => replay_case(case, |b: &Vec<u8>, ev| diff_outcome(detdiff::pwb(b), ev, "pwb").map(|_| ())),
         _ => return None,
